@@ -132,7 +132,8 @@ func runSolverCtx(parent context.Context, s solverDef, timeoutS int, file string
 	case "timeout":
 		status = "unknown"
 	default:
-		if strings.Contains(out, "timeout") {
+		if first == "" || strings.Contains(out, "timeout") {
+			// (no verdict line at all: the solver was killed at the time limit, possibly after printing warnings)
 			status = "unknown"
 		} else {
 			status = "error"
